@@ -136,6 +136,8 @@ impl<'a> LinearLocator<'a> {
     }
 
     pub fn locate(&mut self, offset: crate::text_size::TextSize) -> SourceLocation {
+        #[cfg(rustpython_parser_verif)]
+        verif_trace::enter(false, offset.to_u32());
         debug_assert!(
             self.state.cursor <= offset,
             "{:?} -> {:?} {}",
@@ -149,6 +151,8 @@ impl<'a> LinearLocator<'a> {
         } else {
             self.state.cursor = offset;
         }
+        #[cfg(rustpython_parser_verif)]
+        verif_trace::leave(self.state.line_number.get(), column.get());
         SourceLocation {
             row: self.state.line_number,
             column,
@@ -156,8 +160,12 @@ impl<'a> LinearLocator<'a> {
     }
 
     pub fn locate_only(&mut self, offset: crate::text_size::TextSize) -> SourceLocation {
+        #[cfg(rustpython_parser_verif)]
+        verif_trace::enter(true, offset.to_u32());
         let (column, new_state) = self.locate_inner(offset);
         let state = new_state.as_ref().unwrap_or(&self.state);
+        #[cfg(rustpython_parser_verif)]
+        verif_trace::leave(state.line_number.get(), column.get());
         SourceLocation {
             row: state.line_number,
             column,
@@ -250,6 +258,49 @@ impl<'a> LinearLocator<'a> {
             location: Some(location),
             source_path: base.source_path,
         }
+    }
+}
+
+/// Verification hook (only with `--cfg rustpython_parser_verif`): a thread-local record of every
+/// `LinearLocator::locate` / `locate_only` call, in call order, with the returned one-indexed
+/// (row, column), or `None` when the call did not return (panic).
+#[cfg(rustpython_parser_verif)]
+pub mod verif_trace {
+    use std::cell::RefCell;
+
+    #[derive(Debug, Clone, Copy, PartialEq, Eq)]
+    pub struct Event {
+        /// `true` for `locate_only`, `false` for `locate`
+        pub only: bool,
+        pub offset: u32,
+        pub result: Option<(u32, u32)>,
+    }
+
+    thread_local! {
+        static TRACE: RefCell<Vec<Event>> = const { RefCell::new(Vec::new()) };
+    }
+
+    pub(super) fn enter(only: bool, offset: u32) {
+        TRACE.with(|t| {
+            t.borrow_mut().push(Event {
+                only,
+                offset,
+                result: None,
+            })
+        });
+    }
+
+    pub(super) fn leave(row: u32, column: u32) {
+        TRACE.with(|t| {
+            if let Some(last) = t.borrow_mut().last_mut() {
+                last.result = Some((row, column));
+            }
+        });
+    }
+
+    /// Take the events recorded on this thread since the last call.
+    pub fn drain() -> Vec<Event> {
+        TRACE.with(|t| std::mem::take(&mut *t.borrow_mut()))
     }
 }
 
